@@ -173,6 +173,8 @@ func genDocset(r *Rand, o *docsetOpts) eCase {
 	}
 	if r.Chance(30) { // several documents per AddDocument call
 		c.Batch = 2 + r.Intn(4)
+	} else if r.Chance(30) && len(c.Docs) > 1 { // an intermediate BuildIndex, then more documents (possibly new fields), then the final build
+		c.Rebuild = 1 + r.Intn(len(c.Docs)-1)
 	}
 	return c
 }
@@ -226,7 +228,7 @@ func smallScope(kind string, add func(in interface{})) {
 	}
 }
 
-const e2eRule = "seeded document sets (1..maxDocs documents, 1..4 and sometimes 200+ conjunctions, 0..6 expressions over the fields with repetition on one field, 0..4 values from a 6-value alphabet in several Go representations, empty lists, all-negative and empty conjunctions, ids incl. 0 and +-(2^43-1)), every tenth case over 9..16 fields; documents added one per AddDocument call or (30%) in groups of 2..5; 8..20 queries per index (absent/nil/empty/1..3 values per field, an unknown field, repeats, debug options on 20%); thorough adds the exhaustive small scope (2 documents, conjunctions of <=2 atoms over 2 fields x 2 values, all 16 assignments). A case is non-trivial when some query returns a non-empty proper subset of the accepted documents; distinct = distinct input"
+const e2eRule = "seeded document sets (1..maxDocs documents, 1..4 and sometimes 200+ conjunctions, 0..6 expressions over the fields with repetition on one field, 0..4 values from a 6-value alphabet in several Go representations, empty lists, all-negative and empty conjunctions, ids incl. 0 and +-(2^43-1)), every tenth case over 9..16 fields; documents added one per AddDocument call or (30%) in groups of 2..5, (20%) with an intermediate BuildIndex before the remaining documents; 8..20 queries per index (absent/nil/empty/1..3 values per field, an unknown field, repeats, debug options on 20%); thorough adds the exhaustive small scope (2 documents, conjunctions of <=2 atoms over 2 fields x 2 values, all 16 assignments). A case is non-trivial when some query returns a non-empty proper subset of the accepted documents; distinct = distinct input"
 
 func init() {
 	gen := func(kind string, multiSat, mixed bool) func(tier string, r *Rand, add func(in interface{})) {
